@@ -44,9 +44,14 @@ def check(run, prog, tier):
     # ---- N1: the rejection reaches handle_subscribe, which records nothing and nacks
     hs = cx.m(INST, "handle_subscribe")
     refresh = cx.m(TS, "refresh")
-    eng = engine(prog, InlineOnly(names=(refresh.qual,), props=False, max_depth=2))
-    nack = cx.m(ANN, "_send_subscribe_nack").qual
+    # (a negative acknowledgement is a queued entry built by to_nack_entry, whichever method queues it)
+    nack_fn = prog.lookup_method(ANN, "_send_subscribe_nack")
+    eng = engine(prog, InlineOnly(names=(refresh.qual,) + ((nack_fn.qual,) if nack_fn is not None else ()), props=False, max_depth=2))
     qs = cx.m(ANN, "queue_send").qual
+    tnack = cx.m(SUB, "to_nack_entry").qual
+
+    def nacks(p):
+        return [c for c in calls_to(p, qs) if c.args and c.args[0][0] == "call" and c.args[0][1][0] == "bound" and c.args[0][1][2] == tnack]
     seen_rej = 0
     for p in eng.paths(hs, recv=INST):
         run.paths += 1
@@ -55,20 +60,49 @@ def check(run, prog, tier):
             continue
         seen_rej += 1
         writes = [e for e in p.events if e.kind == "store" and e.target[0] == "item" and "store" in show(e.target)]
-        ok = not writes and len(calls_to(p, nack)) == 1 and p.returns()
+        ok = not writes and len(nacks(p)) == 1 and p.returns()
         run.ob("N1", f"{hs.qual}:rejection-nacked-not-recorded", ok, loc(hs),
                "listener rejection: nothing recorded, one negative acknowledgement" if ok else
-               f"listener rejection: {len(writes)} store write(s), {len(calls_to(p, nack))} nack(s)")
+               f"listener rejection: {len(writes)} store write(s), {len(nacks(p))} nack(s)")
     run.floor("N1-rejection-paths", seen_rej, 1)
     # the callbacks bound at the subscription store are the listener's
     names = refresh.params()[1:]
     sites = [(fi, e) for fi, e in cx.slots.refresh_sites if e.recv == ("attr", ("self", INST), "subscriptions")]
     run.floor("N1-refresh-sites", len(sites), 1)
+    me_ = ("self", INST)
+
+    def reaches_listener(cb, which):
+        """the callback is the listener's method, or a method of the instance (not one the rules were written against) that
+        hands its two arguments to the listener's method exactly once on every path and lets nothing out but what the
+        listener raises - a wrapper that can fail on its own keeps the listener from hearing of the change"""
+        from ..raises import Escapes
+        lq = f"sd.ServerServiceListener.{which}"
+        if cb == ("bound", ("attr", me_, "listener"), lq):
+            return True, "the listener's method"
+        w = prog.functions.get(cb[2]) if cb is not None and cb[0] == "bound" and cb[1] == me_ else None
+        e1 = engine(prog, InlineOnly(names=(), props=True, max_depth=2))
+        if w is None or not e1.is_unknown_helper(w) or len(w.params()) < 3:
+            return False, f"{show(cb)} is not the listener's {which}"
+        a0, a1 = P(w, param_at(w, 0, "subscription")), P(w, param_at(w, 1, "source"))
+        for p in e1.paths(w, recv=INST):
+            run.paths += 1
+            if p.outcome[0] == "raise":
+                continue
+            cs = [c for c in calls_to(p, lq) if c.recv == ("attr", me_, "listener")]
+            if len(cs) != 1 or tuple(cs[0].args[:2]) != (a0, a1):
+                return False, f"{w.qual} calls the listener's {which} {len(cs)}x on a path (expected once, with the subscription and its source)"
+        esc = {x: wh for x, wh in Escapes(prog).escapes(w, recv=INST).items() if x not in ("AnyException", "sd.NakSubscription")}
+        if esc:
+            x, wh = sorted(esc.items())[0]
+            return False, (f"{w.qual} stands between the store and the listener and may raise {x} ({wh}): the store changes but the listener is not told "
+                           "(its last notification no longer says whether the subscription is live)")
+        return True, f"{w.qual} hands the notification on to the listener"
     for fi, e in sites:
         cn, ce = e.arg(names.index("callback_new"), "callback_new"), e.arg(names.index("callback_expired"), "callback_expired")
-        ok = cn == ("bound", ("attr", ("self", INST), "listener"), "sd.ServerServiceListener.client_subscribed") and \
-            ce == ("bound", ("attr", ("self", INST), "listener"), "sd.ServerServiceListener.client_unsubscribed")
-        run.ob("N1", f"{fi.qual}:listener-bound-to-store", ok, loc(fi, e.node), f"subscriptions.refresh(new={show(cn)}, expired={show(ce)})")
+        okn, whyn = reaches_listener(cn, "client_subscribed")
+        oke, whye = reaches_listener(ce, "client_unsubscribed")
+        run.ob("N1", f"{fi.qual}:listener-bound-to-store", okn and oke, loc(fi, e.node),
+               f"subscriptions.refresh(new={show(cn)}, expired={show(ce)}): {whyn if not okn else whye}")
 
     # ---- S3
     reboot_before_entries(cx, "S3", "announcer")
